@@ -31,6 +31,29 @@ def boolStr (b : Bool) : String := if b then "true" else "false"
 
 def bad (s : S14) : StepResult S14 := { st := s, expected := some "bad-op" }
 
+/-- a name-keyed table (trie: engine NameTrie; mem: object MemoryStore; pit: the forwarder's PIT tree) under
+    insertions (+name), removals (-name) and lookups (?name): one observation character per operation;
+    `tabx` = the same with a crafted XXH64 collision pair (reported under its own key) -/
+def tabStep (s : S14) (tabop kind : String) (toks : List String) (got : String) : StepResult S14 :=
+  -- a name-keyed table (trie: engine NameTrie; mem: object MemoryStore; pit: the forwarder's PIT tree) under
+  -- insertions (+name), removals (-name) and lookups (?name): one observation character per operation
+  let ops := toks.mapM fun t =>
+    match Name.ofText ((t.drop 1).toString) with
+    | some n => if t.startsWith "+" then some (TOp.ins n) else if t.startsWith "-" then some (TOp.rem n)
+                else if t.startsWith "?" then some (TOp.has n) else none
+    | none => none
+  match ops with
+  | some ops =>
+    let exp := String.ofList (tabrRun compKey [] ops)
+    let want := String.ofList (tabrRun id [] ops)
+    { st := s, expected := some exp, cov := ["tabr-" ++ kind], nontrivial := ops.length ≥ 3,
+      spec := crashSpec ("table " ++ kind) got ++
+        (if !isCrash got && got != want then
+          [⟨(if tabop == "tabx" then "hash-agrees-with-equality" else "table-keying"),
+            (if tabop == "tabx" then "crafted-lane-collision-" ++ kind else "tabr-" ++ kind),
+            s!"a {kind} table under {toks} answered {got}; by name equality it must answer {want}"⟩] else []) }
+  | none => bad s
+
 def stepC14 (s : S14) (op : String) (got : String) : StepResult S14 :=
   match op.splitOn " " with
   | ["new"] => { st := {}, expected := some "ok" }
@@ -154,6 +177,18 @@ def stepC14 (s : S14) (op : String) (got : String) : StepResult S14 :=
         cov := [match r with | .ok _ => "pparse-ok" | .err => "pparse-err" | .panic => "pparse-panic"],
         spec := crashSpec "NamePatternFromStr" got }
     | none => bad s
+  | ["hx", a, b] =>
+    -- a crafted pair of different names (computed by the generator from the lane structure of XXH64): the model
+    -- predicts both hash values; names that are not Equal must not share one
+    match Name.ofText a, Name.ofText b with
+    | some x, some y =>
+      let hx := hexU64 (nameHash x); let hy := hexU64 (nameHash y)
+      let parts := got.splitOn " "
+      { st := s, expected := some s!"{hx} {hy}", cov := ["crafted-collision"],
+        spec := crashSpec "Hash" got ++
+          (if !isCrash got && x != y && parts.getD 0 "x" == parts.getD 1 "y" then
+            [⟨"hash-agrees-with-equality", "crafted-lane-collision", s!"the names {a} and {b} are not Equal but Hash() gives {parts.getD 0 ""} for both (XXH64 lane arithmetic is invertible: such pairs can be computed)"⟩] else []) }
+    | _, _ => bad s
   | ["h", a] =>
     -- the hash VALUE is compared with XXH64 over the model's hash input (ties the framing: 8-byte type,
     -- 8-byte value length, value); the laws are evaluated on the implementation's outputs
@@ -196,23 +231,8 @@ def stepC14 (s : S14) (op : String) (got : String) : StepResult S14 :=
           (if !isCrash got && got != want then
             [⟨"clone-independent", "cln", s!"a clone of {a} (decoded from a buffer that was then reused) reads {got}"⟩] else []) }
     | none => bad s
-  | "tabr" :: kind :: toks =>
-    -- a name-keyed table (trie: engine NameTrie; mem: object MemoryStore; pit: the forwarder's PIT tree) under
-    -- insertions (+name), removals (-name) and lookups (?name): one observation character per operation
-    let ops := toks.mapM fun t =>
-      match Name.ofText ((t.drop 1).toString) with
-      | some n => if t.startsWith "+" then some (TOp.ins n) else if t.startsWith "-" then some (TOp.rem n)
-                  else if t.startsWith "?" then some (TOp.has n) else none
-      | none => none
-    match ops with
-    | some ops =>
-      let exp := String.ofList (tabrRun compKey [] ops)
-      let want := String.ofList (tabrRun id [] ops)
-      { st := s, expected := some exp, cov := ["tabr-" ++ kind], nontrivial := ops.length ≥ 3,
-        spec := crashSpec ("table " ++ kind) got ++
-          (if !isCrash got && got != want then
-            [⟨"table-keying", "tabr-" ++ kind, s!"a {kind} table under {toks} answered {got}; by name equality it must answer {want}"⟩] else []) }
-    | none => bad s
+  | "tabr" :: kind :: toks => tabStep s "tabr" kind toks got
+  | "tabx" :: kind :: toks => tabStep s "tabx" kind toks got
   | "tab" :: kind :: q :: ns =>
     -- a table keyed on names (kind = trie: engine NameTrie; mem: object MemoryStore): insert the names in
     -- order, report for each the index of the entry the table finds for it (its class), and for the trie the
